@@ -145,7 +145,7 @@ func genC01(t *rapid.T) c01Case {
 		}
 		limit := 40
 		if thorough {
-			limit = 100
+			limit = 80
 		}
 		f := g.bounded(limit)
 		name := fmt.Sprintf("v%d", i)
@@ -157,7 +157,7 @@ func genC01(t *rapid.T) c01Case {
 		if rapid.IntRange(0, 2).Draw(t, "withTwin") != 0 {
 			budget := rapid.IntRange(1, 4).Draw(t, "rwBudget")
 			f2 := rewrite(t, f, &budget)
-			if f2.Cost() > 4*limit {
+			if f2.Cost() > 2*limit {
 				f2 = m.Not(m.Not(f))
 			}
 			c.Profile.Validations = append(c.Profile.Validations, m.Validation{Name: name + "rw", Level: pick(t, levels, "level"), Class: class, Body: f2})
@@ -193,7 +193,7 @@ func genC01(t *rapid.T) c01Case {
 func genC01Wide(t *rapid.T) c01Case {
 	g := &fgen{t: t, maxAtoms: 6, maxDepth: 1, maxWidth: 2, budget: 100, viaPaths: true}
 	if ev.Thorough() {
-		g.maxAtoms = 8
+		g.maxAtoms = 7
 	}
 	outer := rapid.SampledFrom([]string{"or", "or", "and"}).Draw(t, "outer")
 	inner := "and"
